@@ -79,9 +79,10 @@ def to_frac(d):
     return {k: Fraction(v).limit_denominator(10 ** 9) if isinstance(v, float) else Fraction(v) for k, v in d.items()}
 
 
-def check_one(ctx, tag, lib, smi, batch):
+def check_one(ctx, tag, lib, smi, batch, full=None):
     impl = S.impl_descriptors(lib, smi)
     atoms = S.impl_atoms(lib) if 'ok' in impl else None
+    hook = S.hook_graph(lib) if 'ok' in impl else None
     mol = S.prepare(smi)
     if mol is None:
         ctx.count('unparsable')
@@ -104,6 +105,22 @@ def check_one(ctx, tag, lib, smi, batch):
                 if abs(float(impl['ok'].get(k, 0)) - float(spec['ok'].get(k, 0))) > 1e-9}
         ctx.violation('descriptors differ from the scheme file\'s declared decomposition', where,
                       {k: v[1] for k, v in diff.items()}, {k: v[0] for k, v in diff.items()})
+    # second oracle: every pattern read as the set of embeddings its text denotes (neither the implementation's reader nor its
+    # matcher nor RDKit's enumeration): what Lean proves `decompose` to be (C02_decompose_declared)
+    spec2 = S.declared_full(lib.scheme, smi)
+    if spec2 is not None and not impl.get('err', '').startswith('internal'):
+        ctx.count('oracle_embeddings')
+        if ('err' in impl) != ('err' in spec2):
+            ctx.violation('failure clause: the implementation and the declared decomposition (patterns as sets of embeddings) disagree on '
+                          'whether every atom is matched by exactly one centre pattern', where,
+                          spec2 if 'err' in spec2 else 'descriptors', impl if 'err' in impl else 'descriptors')
+        elif 'ok' in impl and not S.same_counts(impl['ok'], spec2['ok']):
+            diff = {k: (impl['ok'].get(k), float(spec2['ok'].get(k, 0))) for k in set(impl['ok']) | set(spec2['ok'])
+                    if abs(float(impl['ok'].get(k, 0)) - float(spec2['ok'].get(k, 0))) > 1e-9}
+            ctx.violation('descriptors differ from the scheme file\'s declared decomposition (patterns as sets of embeddings)', where,
+                          {k: v[1] for k, v in diff.items()}, {k: v[0] for k, v in diff.items()})
+    if full is not None and not impl.get('err', '').startswith('internal'):
+        full.add(lib, smi, impl, where, atoms, hook)
     batch.append((inp, impl, where))
     if atoms is not None and len(atoms) == inp['n']:
         a_inp = dict(inp, op='c02.assign')
@@ -138,6 +155,7 @@ def compare_batch(ctx, batch, remap_tables):
 def run(ctx):
     libs_ = S.load_schemes()
     batch = []
+    full = S.FullTie(ctx)
     for fname, rec in common.load_corpus('C02'):
         ctx.count('corpus')
         replay(ctx, rec)
@@ -147,7 +165,7 @@ def run(ctx):
             ctx.count('schemes_with_unmodelled_descriptors')
         mols = molecules(ctx, kind_of(name), ctx.n(110, 900))
         for smi in mols:
-            check_one(ctx, name, lib, smi, batch)
+            check_one(ctx, name, lib, smi, batch, full)
             if ctx.time_left() < 120:
                 break
         # synthetic schemes derived from this one
@@ -155,11 +173,16 @@ def run(ctx):
             sample = ctx.rng.sample(mols, min(len(mols), ctx.n(8, 20)))
             lib2, mode = synthetic(ctx, lib, sample)
             for smi in sample:
-                check_one(ctx, '%s~%s' % (name, mode), lib2, smi, batch)
+                check_one(ctx, '%s~%s' % (name, mode), lib2, smi, batch, full)
         if len(batch) > 4000:
             compare_batch(ctx, batch, None)
             batch = []
+        full.run()
     compare_batch(ctx, batch, None)
+    full.run()
+    ctx.extra.setdefault('coverage', {})['full_tie'] = (
+        'end-to-end model (c02.full_batch) run on every case, no size bound; largest candidate count of any pattern on any '
+        'compared molecule: %d (cap %d inactive on all compared cases)' % (getattr(full, 'maxraw', 0), S.FullTie.CAP))
 
 
 def replay(ctx, rec):
